@@ -180,6 +180,9 @@ def profile(rng):
     if rng.random() < 0.3:
         # names that differ only in surrounding blanks / case, prefixes of each other, names looking like other things
         p.meas = ["m0", " m0", "m0 ", "M0", "m", "m00", "_default", "None", "m0\t"]
+    elif rng.random() < 0.2:
+        # names that are different strings but equal under some unicode normalisation / folding
+        p.meas = ["m0", "caf\u00e9", "cafe\u0301", "m2", "m\u00b2", "cpu", "\uff43\uff50\uff55", "stra\u00dfe", "strasse"]
     elif rng.random() < 0.25:
         # names that are patterns in some syntax (glob, regex, SQL LIKE): a name is a literal
         p.meas = ["m0", "m1", "m*", "m?", "m[01]", "rate[5m]", "rate5", ".*", "m.", "%", "_default"]
